@@ -131,7 +131,7 @@ def conformance(d, rows, max_rounds=6):
     Returns coverage fields; drift is a warning, never a verdict."""
     modelled_steps, modelled_runs = 0, 0
     for rr in split_runs(rows):
-        if rr[0]["op"] != "init" or rr[0]["rs"] not in ("chainedhotstuff", "simplehotstuff") or not (rr[0]["byz"] == [] or rr[0].get("crashOnly")):
+        if rr[0]["op"] != "init" or rr[0]["rs"] not in ("chainedhotstuff", "simplehotstuff", "fasthotstuff") or not (rr[0]["byz"] == [] or rr[0].get("crashOnly")):
             continue
         k = next((i for i, x in enumerate(rr) if x["op"] == "byz"), len(rr))
         steps = sum(1 for x in rr[:k] if x["op"] == "step")
